@@ -176,3 +176,40 @@ def eval_cases(module, cases, *, tag=None, timeout=1800, env=None, cfg=None):
 
 def digest(obj):
     return hashlib.sha1(json.dumps(obj, sort_keys=True, default=str).encode()).hexdigest()[:12]
+
+
+def eval_robust(module, cases, tag, timeout, skipped):
+    """eval_cases that survives 32-bit overflow inside TLC: bisect, drop the single overflowing case (result None)"""
+    try:
+        out, res = eval_cases(module, cases, tag=tag, timeout=timeout)
+        return out, [res]
+    except MachineryError as e:
+        if "Overflow" not in str(e):
+            raise
+        if len(cases) == 1:
+            skipped.append(cases[0])
+            return [None], []
+        h = len(cases) // 2
+        o1, r1 = eval_robust(module, cases[:h], tag, timeout, skipped)
+        o2, r2 = eval_robust(module, cases[h:], tag, timeout, skipped)
+        return o1 + o2, r1 + r2
+
+
+def eval_parallel(module, cases, *, tag=None, chunks=12, timeout=1800, skipped=None):
+    """eval_cases split over several single-worker TLC processes"""
+    import concurrent.futures as cf
+    skipped = [] if skipped is None else skipped
+    if len(cases) < 200:
+        return eval_robust(module, cases, tag or module, timeout, skipped)
+    n = min(chunks, max(1, len(cases) // 100))
+    size = (len(cases) + n - 1) // n
+    parts = [cases[i:i + size] for i in range(0, len(cases), size)]
+    with cf.ThreadPoolExecutor(max_workers=len(parts)) as ex:
+        futs = [ex.submit(eval_robust, module, part, "%s_%d" % (tag or module, i), timeout, skipped)
+                for i, part in enumerate(parts)]
+        outs, ress = [], []
+        for f in futs:
+            o, r = f.result()
+            outs.extend(o)
+            ress.extend(r)
+    return outs, ress
